@@ -231,7 +231,7 @@ class Check:
             seen.add((path, suf))
             print('VIOLATION property=%s replay=%s%s' % (self.prop, path, suf))
         ev = {'property_id': self.prop, 'tier': self.tier, 'seed': self.seed, 'level': level,
-              'coverage': self.cov, 'assumptions': self.assumptions,
+              'coverage': self.cov, 'assumptions': self.assumptions or list(self.cov.get('trusted_base', [])),
               'wall_s': round(time.time() - self.t0, 2), 'violations': getattr(self, 'nviol', 0)}
         os.makedirs(VERIF + '/evidence', exist_ok=True)
         json.dump(ev, open('%s/evidence/%s.json' % (VERIF, self.prop), 'w'), indent=1)
